@@ -3,6 +3,7 @@ package main
 import (
 	"fmt"
 	"go/types"
+	"strings"
 
 	"golang.org/x/tools/go/ssa"
 )
@@ -31,6 +32,14 @@ func init() {
 }
 
 func runC20(p *Prog, r *Report) {
+	defer func() {
+		if fn := p.Func("packageindex", "New"); fn != nil {
+			frozenSkips(p, r, "D4-index-key", "packageindex.New", fn, func(in ssa.Instruction) bool {
+				mu, ok := in.(*ssa.MapUpdate)
+				return ok && strings.Contains(typeShort(mu.Value.Type()), "Package")
+			}, c20IndexSkips, "INDEX", "a package can be left out of the index handed to the detectors for a reason other than 'its extractor yields no package URL'")
+		}
+	}()
 	r.Rule("D1-index", "index built from the complete inventory and handed to detector.Run")
 	r.Rule("D2-once", "each detector scanned once; loop covers all detectors")
 	r.Rule("D2-tag", "every finding tagged with its detector's name and appended")
@@ -458,4 +467,10 @@ func c20Index(p *Prog, r *Report) {
 		}
 	}
 	r.Check(okGS, "D4-index-key", fnKey(gs)+":lookup", p.Pos(gs.Pos()), "pkgMap[pkgType][name]", "GetSpecific does not look up [type][name] in the order New stores them")
+}
+
+// c20IndexSkips: audited decisions that keep a package out of the index.
+var c20IndexSkips = []string{
+	"builtin.len(param0) <= (φ:int+1:int)",
+	"nil:*github.com/google/osv-scalibr/purl.PackageURL == packageindex.toPURL(param0[(φ:int+1:int)])",
 }
